@@ -59,7 +59,7 @@ def run(chk):
             f = prog.method(cname, mname, required=False)
             if f is not None:
                 targets.append((f, f.pos_params()[0].name))
-    fetch = [f for f in exchange.exchange_functions(prog) if f.param("noreply") is None]
+    fetch = [f for f in exchange.reading_exchange_functions(prog) if f.param("noreply") is None]
     for f in fetch:
         if f.param("keys") is not None:
             targets.append((f, "keys"))
